@@ -279,7 +279,10 @@ def gen_tmpl(rng, tier):
         bt = [t for t in bt if len(t) < 6000]
     root = g.gen_root(random.Random(5))
     for k, t in enumerate(bt):
-        cases.append(g.case_line(k % 4, 1, t, root))
+        # deep nestings iterate the root at every level: a one-member root keeps the work linear (as in c01.py)
+        v = {"a": "x"} if t.count("<loop") > 50 else {"a": "x", "v": 1, "list": [1, [2]], "obj": {"k": 1}}
+        # (mode 1 renders a two-member value as well: exponential in the loop depth)
+        cases.append(g.case_line(k % 4, 0 if t.count("<loop") > 50 else 1, t, v))
     dist["tmpl_boundary"] = len(bt)
     # every prefix of a few templates that use all tag kinds
     full = ["<loop set=\"items\" value=\"v\" group=\"g\" sort=\"ascend\">{var:v[name]}{math:1+{var:n1}}<if case=\"{var:n2}>0\">a{svar:svp, {var:a}, {raw:b}}<else if case=\"1\">b<else>c</if></loop>{if case=\"{var:t}\" true=\"{var:s1}x\" false=\"{raw:s1}\"}",
